@@ -209,8 +209,8 @@ def _second_order_integral(E: ndarray, eigvals: ndarray, dt: float,
     mask_dEdE = np.not_equal(dEdE, 0)
     mask_dEE = np.not_equal(dEE, 0)
     # The three cases are selected by dimensionless small-argument tests
-    mask_EdE = np.abs(EdE*dt) > 1e-8
-    mask_dEE_case = np.abs(dEE*dt) > 1e-8
+    mask_EdE = np.abs(EdE*dt) > 1e-5
+    mask_dEE_case = np.abs(dEE*dt) > 1e-5
     mask_nEdE_dEE = np.logical_and(~mask_EdE[:, None, None], mask_dEE_case[..., None, None],
                                    out=mask_nEdE_dEE)
     mask_nEdE_ndEE = np.logical_and(~mask_EdE[:, None, None], ~mask_dEE_case[..., None, None],
@@ -244,11 +244,17 @@ def _second_order_integral(E: ndarray, eigvals: ndarray, dt: float,
     frc_buf1.imag = np.subtract(frc_buf1.imag, exp_buf.real, out=frc_buf1.imag, where=mask_dEE)
     frc_buf1 = np.divide(frc_buf1, dEE, out=frc_buf1, where=mask_dEE)
 
-    int_buf[mask_nEdE_dEE] = np.broadcast_to(frc_buf1[..., None, None],
-                                             int_buf.shape)[mask_nEdE_dEE]
+    # ... to first order in the small omega + Omega_mn: slope (dt^2 e^{i x dt} - 2 I(x, 0))/(2 x), x = Omega_ij - omega
+    exp_buf = np.multiply(exp_buf, dt, out=exp_buf, where=mask_dEE_case)
+    exp_buf = np.subtract(exp_buf, 2*frc_buf1, out=exp_buf, where=mask_dEE_case)
+    exp_buf = np.divide(exp_buf, 2*dEE, out=exp_buf, where=mask_dEE_case)
+    int_buf[mask_nEdE_dEE] = (frc_buf1[..., None, None]
+                              + exp_buf[..., None, None]*EdE[:, None, None])[mask_nEdE_dEE]
 
     # Case where omega + Omega_ij = 0, omega - Omega_mn = 0
-    int_buf[mask_nEdE_ndEE] = dt**2 / 2
+    # (to first order in both small quantities)
+    int_buf[mask_nEdE_ndEE] = (dt**2/2 + 1j*dt**3*(dEE[..., None, None]/3
+                                                   + EdE[:, None, None]/6))[mask_nEdE_ndEE]
     return int_buf
 
 
